@@ -18,7 +18,15 @@ import hugr.model as model
 from hugr._serialization.ops import OpType as SerialOp
 from hugr._serialization.serial_hugr import SerialHugr
 from hugr.exceptions import ParentBeforeChild
-from hugr.ops import Call, Const, Custom, DataflowOp, Module, Op
+from hugr.ops import (
+    Call,
+    Const,
+    Custom,
+    DataflowOp,
+    Module,
+    Op,
+    _num_dataflow_ports,
+)
 from hugr.tys import Kind, Type, ValueKind
 from hugr.utils import BiMap
 from hugr.val import Value
@@ -672,7 +680,12 @@ class Hugr(Mapping[Node, NodeData], Generic[OpVarCov]):
         # not counted in the number of ports.
         if p.offset < 0:
             assert p.offset == -1, "Only order edges are allowed with offset < 0"
-            offset = self.num_ports(p.node, p.direction)
+            # The order port comes after all the ports of the operation,
+            # whether they are connected or not.
+            num_ports = _num_dataflow_ports(self[p.node].op, p.direction)
+            if num_ports is None:
+                num_ports = self.num_ports(p.node, p.direction)
+            offset = num_ports
         else:
             offset = p.offset
 
